@@ -1,5 +1,9 @@
-(* placeholder; regenerated by harness/c15.py *)
-From Coq Require Import ZArith NArith.
+(* REGENERATED from src/mxlpy/integrators/int_scipy.py (Scipy.integrate_to_steady_state, reset),
+   simulator.py, scan.py, types.py, simulation.py by harness/c15.py; do not edit.
+   An unrecognised shape yields a *Unknown constructor / false, which breaks C15_facts_pinned. *)
+From Coq Require Import QArith ZArith NArith.
 From Steady Require Import SteadyLoop.
-Definition gen_ss_facts : ss_facts := mkSSFacts 100%Z 1000%N CmpLt NormL2 PrevCopy RelDivPrev ExhaustFail true.
-Definition gen_plumb_facts : plumb_facts := mkPlumb true true.
+Definition gen_ss_facts : ss_facts :=
+  mkSSFacts 100%Z 1000%N CmpLt NormL2 PrevCopy RelDivPrev ExhaustFail true.
+Definition gen_plumb_facts : plumb_facts :=
+  mkPlumb true true (4722366482869645 # 4722366482869645213696)%Q.
